@@ -351,6 +351,59 @@ func ruleC12Listener(c *Ctx) {
 		}
 	}
 	c.Check(nPop == 1, "C12.LISTENER", FnName(ne), p.Pos(ne.Pos()), "wraps exactly one popped operand", "NOT does not wrap exactly one operand")
+	// every push is a fresh UntypedNotExprNode whose operand is the popped node itself, and the popped
+	// operand is not modified (negation applies to the whole operand, parenthesised or not)
+	{
+		push := p.Method("ast", "ToBoltListener", "pushStack")
+		notT := p.Named("ast", "UntypedNotExprNode")
+		okNot, whyNot := true, ""
+		nPush := 0
+		var popped ssa.Value
+		for _, call := range callsIn(ne) {
+			if isCallTo(call, popNode) {
+				popped = call.(*ssa.Call)
+			}
+		}
+		for _, call := range callsIn(ne) {
+			if !isCallTo(call, push) {
+				continue
+			}
+			nPush++
+			mi, isMI := call.Common().Args[1].(*ssa.MakeInterface)
+			if !isMI || namedOf(mi.X.Type()) != notT {
+				okNot, whyNot = false, "something other than a new UntypedNotExprNode is pushed"
+				continue
+			}
+			alloc, isA := mi.X.(*ssa.Alloc)
+			wraps := false
+			if isA {
+				for _, r := range *alloc.Referrers() {
+					if fa, ok := r.(*ssa.FieldAddr); ok {
+						for _, r2 := range *fa.Referrers() {
+							if st, ok := r2.(*ssa.Store); ok && st.Val == popped {
+								wraps = true
+							}
+						}
+					}
+				}
+			}
+			if !wraps {
+				okNot, whyNot = false, "the pushed node does not wrap the popped operand as a whole"
+			}
+		}
+		for _, b := range ne.Blocks {
+			for _, in := range b.Instrs {
+				if st, ok := in.(*ssa.Store); ok {
+					if _, base := fieldOfAddr(st.Addr); base != nil {
+						if _, fresh := base.(*ssa.Alloc); !fresh {
+							okNot, whyNot = false, "the operand node is modified in place"
+						}
+					}
+				}
+			}
+		}
+		c.Check(okNot && nPush >= 1, "C12.LISTENER", FnName(ne)+": negates the whole operand", p.Pos(ne.Pos()), "pushes UntypedNotExprNode{expr: popped} and never rewrites the operand", "`not (P)` is not built as the negation of the whole operand: "+whyNot)
+	}
 	// Group: the bolt listener must not override Enter/ExitGroup (parentheses act through tree shape only)
 	tbl := p.Named("ast", "ToBoltListener")
 	for _, m := range []string{"EnterGroup", "ExitGroup"} {
@@ -551,6 +604,48 @@ func ruleC12Case(c *Ctx) {
 	for _, fname := range []string{"VisitTerminal", "appendBoolNode"} {
 		fn := p.SSAFunc(p.Method("ast", "ToBoltListener", fname))
 		c.Analysed(FnName(fn))
+		// map lookups keyed by token text: if the map has letter-bearing keys the text must be folded
+		for _, b := range fn.Blocks {
+			for _, in := range b.Instrs {
+				lk, ok := in.(*ssa.Lookup)
+				if !ok {
+					continue
+				}
+				u, ok := lk.X.(*ssa.UnOp)
+				if !ok {
+					continue
+				}
+				g, ok := u.X.(*ssa.Global)
+				if !ok {
+					continue
+				}
+				keys := globalMapStringKeys(p, g)
+				letters := false
+				for _, k := range keys {
+					if strings.ToLower(k) != strings.ToUpper(k) {
+						letters = true
+					}
+				}
+				folded := false
+				var walk func(v ssa.Value, d int)
+				walk = func(v ssa.Value, d int) {
+					if d > 6 {
+						return
+					}
+					if call, ok := v.(*ssa.Call); ok {
+						if f, _ := calleeOf(call.Common()); f != nil && f.Pkg() != nil && f.Pkg().Path() == "strings" && (f.Name() == "ToLower" || f.Name() == "ToUpper") {
+							folded = true
+						}
+						for _, a := range call.Call.Args {
+							walk(a, d+1)
+						}
+					}
+				}
+				walk(lk.Index, 0)
+				construct := FnName(fn) + ": lookup in " + g.Name()
+				c.Check(!letters || folded, "C12.CASE", construct, p.Pos(lk.Pos()), fmt.Sprintf("map keys %q contain no letters, or the token text is case-folded first", keys), fmt.Sprintf("token text is looked up in a map with letter-bearing keys %q without case folding: any other spelling (IN, Not In, BETWEEN) silently maps to the zero operator", keys))
+			}
+		}
 		for _, call := range callsIn(fn) {
 			cal, _ := calleeOf(call.Common())
 			if cal == nil || cal.Pkg() == nil {
@@ -581,4 +676,32 @@ func ruleC12Case(c *Ctx) {
 			c.Check(folded, "C12.CASE", FnName(fn)+": "+cal.Name(), p.Pos(call.Pos()), "token text is case-folded before the comparison", "token text is compared/parsed without case folding: `NOT IN`, `TRUE` etc. would be misread")
 		}
 	}
+}
+
+// globalMapStringKeys: constant string keys written into a package-level map by its initialiser.
+func globalMapStringKeys(p *Prog, g *ssa.Global) []string {
+	var keys []string
+	initFn := g.Pkg.Func("init")
+	for _, b := range initFn.Blocks {
+		for _, in := range b.Instrs {
+			mu, ok := in.(*ssa.MapUpdate)
+			if !ok {
+				continue
+			}
+			// the map value that is later stored into g
+			stored := false
+			for _, r := range *mu.Map.Referrers() {
+				if st, ok := r.(*ssa.Store); ok && st.Addr == ssa.Value(g) {
+					stored = true
+				}
+			}
+			if !stored {
+				continue
+			}
+			if k, ok := constString(mu.Key); ok {
+				keys = append(keys, k)
+			}
+		}
+	}
+	return keys
 }
